@@ -60,6 +60,23 @@ def copy_ast(node):
     return new
 
 
+def copy_ast_replacing(node, old, new):
+    if node is old:
+        return new
+    if isinstance(node, list):
+        return [copy_ast_replacing(x, old, new) for x in node]
+    if not isinstance(node, ast.AST):
+        return node
+    out = type(node)()
+    for f in node._fields:
+        if hasattr(node, f):
+            setattr(out, f, copy_ast_replacing(getattr(node, f), old, new))
+    for a in ('lineno', 'col_offset', 'end_lineno', 'end_col_offset'):
+        if hasattr(node, a):
+            setattr(out, a, getattr(node, a))
+    return out
+
+
 def C(v):
     return ('const', v)
 
@@ -246,6 +263,11 @@ class Walker:
                     r = self.expand_quantifier(node.func.id, node.args[0], st)
                     if r is not None:
                         return r
+                if node.func.id == 'isinstance' and len(args) == 2 and not kwargs and args[1][0] == 'tuple' and args[1][1] \
+                        and all(c[0] == 'name' for c in args[1][1]):
+                    # isinstance(x, (A, B)) is isinstance(x, A) or isinstance(x, B)
+                    alts = tuple(('call', 'isinstance', (args[0], c), ()) for c in args[1][1])
+                    return alts[0] if len(alts) == 1 else ('bool', 'or', alts)
                 if node.func.id == 'getattr' and len(args) == 2 and not kwargs and is_const(args[1]) and isinstance(args[1][1], str):
                     # getattr(x, 'name') is x.name
                     v = ('attr', args[0], args[1][1])
@@ -275,6 +297,9 @@ class Walker:
                 r = self.eval_call(target, args, kwargs, st)
                 if r is not None:
                     return r
+                if target[0] == 'call' and target[1] == 'type' and len(target[2]) == 1 and not target[3]:
+                    # type(x)(...) is x.__class__(...)
+                    return ('mcall', target[2][0], '__class__', args, kwargs)
                 return ('callv', target, args, kwargs)
             return ('call', unparse(node.func), args, kwargs)
         if isinstance(node, ast.BinOp):
@@ -287,6 +312,12 @@ class Walker:
                     pass
             if op == '+' and a[0] == b[0] and a[0] in ('list', 'tuple'):
                 return (a[0], a[1] + b[1])
+            if op == '+':
+                # string / bytes concatenation with a module-level constant
+                ca = C(self.facts.consts[a[1]]) if a[0] == 'name' and a[1] not in st.env and isinstance(self.facts.consts.get(a[1]), (str, bytes)) else a
+                cb = C(self.facts.consts[b[1]]) if b[0] == 'name' and b[1] not in st.env and isinstance(self.facts.consts.get(b[1]), (str, bytes)) else b
+                if is_const(ca) and is_const(cb) and type(ca[1]) is type(cb[1]) and isinstance(ca[1], (str, bytes)):
+                    return C(ca[1] + cb[1])
             return ('bin', op, a, b)
         if isinstance(node, ast.UnaryOp):
             a = self.sym(node.operand, st)
@@ -321,6 +352,14 @@ class Walker:
                 sl = node.slice
                 return ('slice', base, self.sym(sl.lower, st), self.sym(sl.upper, st), self.sym(sl.step, st))
             idx = self.sym(node.slice, st)
+            if base[0] == 'name' and is_const(idx) and isinstance(self.facts.consts.get(base[1]), (dict, list, tuple)):
+                # a module-level constant table indexed by a constant
+                try:
+                    r = self.facts.consts[base[1]][idx[1]]
+                    if isinstance(r, (int, str, bytes, bool, type(None))):
+                        return C(r)
+                except (KeyError, IndexError, TypeError):
+                    pass
             if base[0] == 'dict' and is_const(idx):
                 for k, v in base[1]:
                     if k == idx:
@@ -418,7 +457,25 @@ class Walker:
                 env[p_] = self.sym(defaults[p_], PathState())
         return True
 
-    PURE_EVENTS = ('value', 'return')
+    PURE_EVENTS = ('value', 'return', 'cond', 'with', 'endwith')
+
+    def merge_paths(self, vals, depth):
+        """[(path, value)] of the effect-free paths of one call -> a single (conditional) value, or None."""
+        if len(vals) == 1:
+            return vals[0][1]
+        if all(v == vals[0][1] for _, v in vals):
+            return vals[0][1]
+        tests = [p.conds[depth][0] if len(p.conds) > depth else None for p, _ in vals]
+        if any(t is None or t != tests[0] for t in tests):
+            return None
+        yes = [(p, v) for p, v in vals if p.conds[depth][1]]
+        no = [(p, v) for p, v in vals if not p.conds[depth][1]]
+        if not yes or not no:
+            return self.merge_paths(vals, depth + 1)
+        a, b = self.merge_paths(yes, depth + 1), self.merge_paths(no, depth + 1)
+        if a is None or b is None:
+            return None
+        return ('ifexp', tests[0], a, b)
 
     def eval_call(self, target, args, kwargs, st):
         """Value of calling a lambda / local-closure value when its body is a single effect-free path (predicate factories,
@@ -453,16 +510,19 @@ class Walker:
             finally:
                 self.n_paths = saved
             paths = list(done) + list(live)
-            if len(paths) != 1 or paths[0] in live and False:
+            if not paths or len(paths) > 8:
                 return None
-            p = paths[0]
-            if any(e[0] not in self.PURE_EVENTS for e in p.events):
-                return None
-            if p in live:
-                return C(None)
-            if p.end != 'return':
-                return None
-            return [e for e in p.events if e[0] == 'return'][-1][1]
+            vals = []
+            for p in paths:
+                if any(e[0] not in self.PURE_EVENTS for e in p.events):
+                    return None
+                if p in live:
+                    vals.append((p, C(None)))
+                elif p.end == 'return':
+                    vals.append((p, [e for e in p.events if e[0] == 'return'][-1][1]))
+                else:
+                    return None
+            return self.merge_paths(vals, 0)
         finally:
             self._inline_stack.pop()
             depth[0] -= 1
@@ -912,7 +972,43 @@ class Walker:
 
     def expand_calls(self, node, st, done):
         """Hoist inlinable calls nested inside an expression: [(state, rewritten expression)] where every such call has been
-        walked (forking paths as needed) and replaced by a temporary holding its symbolic result."""
+        walked (forking paths as needed) and replaced by a temporary holding its symbolic result; conditional expressions whose
+        test the path facts do not decide fork the path (x = a if t else b  is  if t: x = a  else: x = b)."""
+        out = []
+        for s_, e in self._expand_calls(node, st, done):
+            out.extend(self.split_ifexp(e, s_))
+        return out
+
+    def split_ifexp(self, node, st, depth=0):
+        if node is None or depth > 4:
+            return [(st, node)]
+        target = None
+        for n in walk_eager(node):
+            if isinstance(n, ast.IfExp):
+                target = n
+                break
+        if target is None:
+            return [(st, node)]
+        test = self.sym(target.test, st)
+        d = self.decide(test, st)
+        out = []
+        for pol in (True, False):
+            if d is not None and d != pol:
+                continue
+            s2 = st.clone() if d is None else st
+            if d is None:
+                self.assume(test, pol, s2)
+                s2.conds.append((test, pol, target))
+                s2.events.append(('cond', test, pol, target))
+            chosen = target.body if pol else target.orelse
+            if target is node:
+                new = chosen
+            else:
+                new = copy_ast_replacing(node, target, chosen)
+            out.extend(self.split_ifexp(new, s2, depth + 1))
+        return out
+
+    def _expand_calls(self, node, st, done):
         if node is None or not any(isinstance(n, ast.Call) and self.inline_target(n, st) is not None for n in walk_eager(node)):
             return [(st, node)]
         node = copy_ast(node)
